@@ -87,6 +87,10 @@ def gen_cases(tier, seed):
         for sh in shapes1:
             for alpha in (0.5, 1.0, 2.0):
                 cases.append(dict(kind="prox", prog=prog, shape=sh, alpha=alpha, small=not T))
+    # the step size in other accepted forms: a Python int, NumPy integer scalars, a 0-d integer array (a single-precision scalar legitimately costs precision and is not included)
+    for prog in programs(1):
+        for aform, alpha in (("int", 2), ("int", 1), ("np.int64", 2), ("np.int32", 3), ("0-d int array", 2)):
+            cases.append(dict(kind="prox", prog=prog, shape=[2], alpha=alpha, small=True, aform=aform))
     two = programs(2)[len(programs(1)):]
     for prog in two:
         for sh in ([[2], [2, 2]] if T else [[2]]):
@@ -291,6 +295,12 @@ def run_case(case, seed):
     if case["kind"] == "thresh":
         return run_thresh(case, viol)
     prog, shape, alpha = case["prog"], case["shape"], case["alpha"]
+    aform = case.get("aform")
+    aobj = alpha if aform is None else {"int": int, "np.int64": np.int64, "np.int32": np.int32, "np.float32": np.float32,
+                                         "0-d int array": lambda v: np.array(int(v))}[aform](alpha)
+    alpha = float(alpha)
+    if aform == "0-d int array" and uses(prog, "Stack"):
+        return dict(states=1, transitions=1, nontrivial=False, outcome="skipped", viol=[])   # Stack splits non-scalar step sizes by block
     site = prog["p"] + ("(" + (prog["kid"]["p"] if "kid" in prog else ",".join(k["p"] for k in prog["kids"])) + ")" if ("kid" in prog or "kids" in prog) else "")
     evals = moved = 0
     seen = set()
@@ -308,9 +318,9 @@ def run_case(case, seed):
         for pt in lattice(n, cplx, tier_small=case.get("small", True)):
             y = np.array(pt, dtype=np.complex128 if (cplx or fft_inside) else np.float64).reshape(sh)
             y0 = y.copy()
-            x = P(alpha, y)
+            x = P(aobj, y)
             evals += 1
-            when = "alpha=%s" % alpha
+            when = "alpha=%s" % alpha if aform is None else "alpha given as %s" % aform
             # results are values: the array returned by the previous call still holds the previous minimiser
             if held is not None and ("held", site) not in seen and (held is x or np.asarray(held).tobytes() != held_copy):
                 seen.add(("held", site))
